@@ -6,6 +6,7 @@ supplied BytesIO open, whether ParamikoTransport.close() closes the library sess
 Everything is read from the AST of /repo's working tree; anything the statement language cannot express
 raises TranslateError (never approximated)."""
 import ast
+import copy
 
 from translate import HEADER, TranslateError, _parse
 
@@ -148,6 +149,124 @@ def _only_try_finally(stmts):
     return None
 
 
+# ---------- normalisation: behaviour-preserving rewrites into the shapes the statement language has
+class _Rename(ast.NodeTransformer):
+    """replace loads of the given local names by an expression; drop the given Assign nodes"""
+
+    def __init__(self, mapping, drop=()):
+        self.m, self.drop = mapping, set(map(id, drop))
+
+    def visit_Name(self, node):
+        if node.id in self.m and isinstance(node.ctx, ast.Load):
+            return ast.copy_location(copy.deepcopy(self.m[node.id]), node)
+        return node
+
+    def visit_Assign(self, node):
+        if id(node) in self.drop:
+            return None
+        return self.generic_visit(node)
+
+
+def _module_helpers(rel):
+    """module-level functions of one positional parameter (candidates for inlining `helper(self)`)"""
+    out = {}
+    for node in _parse(rel).body:
+        if isinstance(node, (ast.FunctionDef, ast.AsyncFunctionDef)) and len(node.args.args) == 1 and not node.args.kwonlyargs \
+                and not node.args.vararg and not node.args.kwarg and not node.args.posonlyargs and not node.decorator_list:
+            out[node.name] = node
+    return out
+
+
+def _mk_try(body, finalbody, like):
+    t = ast.Try(body=body, handlers=[], orelse=[], finalbody=finalbody)
+    return ast.copy_location(t, like)
+
+
+def _norm_stmts(stmts, helpers, depth=0):
+    out = []
+    for st in stmts:
+        call = _strip_await(st.value) if isinstance(st, ast.Expr) else None
+        if isinstance(call, ast.Call) and isinstance(call.func, ast.Name) and call.func.id in helpers and len(call.args) == 1 \
+                and not call.keywords and _dotted(call.args[0]) == "self" and depth < 3:
+            # `helper(self)` with helper a module-level function: its body with the parameter renamed to self -- provided the body
+            # has no return/yield (then falling off its end is all it does) and is awaited iff it is a coroutine function
+            h = helpers[call.func.id]
+            body = copy.deepcopy(_body_wo_doc(h))
+            plain = not any(isinstance(n, (ast.Return, ast.Yield, ast.YieldFrom, ast.Global, ast.Nonlocal)) for b in body for n in ast.walk(b))
+            if plain and isinstance(h, ast.AsyncFunctionDef) == isinstance(st.value, ast.Await):
+                ren = _Rename({h.args.args[0].arg: ast.Name(id="self", ctx=ast.Load())})
+                body = [ast.fix_missing_locations(ren.visit(b)) for b in body]
+                out.extend(_norm_stmts(body, helpers, depth + 1))
+                continue
+        if isinstance(st, ast.Try):
+            st = copy.copy(st)
+            st.body = _norm_stmts(st.body, helpers, depth)
+            st.finalbody = _norm_stmts(st.finalbody, helpers, depth)
+            st.orelse = _norm_stmts(st.orelse, helpers, depth)
+            hs = []
+            for h in st.handlers:
+                h = copy.copy(h)
+                h.body = _norm_stmts(h.body, helpers, depth)
+                hs.append(h)
+            st.handlers = hs
+            # try: (try: A finally: B) finally: C   ==   try: A finally: (try: B finally: C)
+            if st.finalbody and not st.handlers and not st.orelse and len(st.body) == 1 and isinstance(st.body[0], ast.Try):
+                inner = st.body[0]
+                if inner.finalbody and not inner.handlers and not inner.orelse:
+                    st = _mk_try(inner.body, [_mk_try(inner.finalbody, st.finalbody, st)], st)
+        elif isinstance(st, ast.If):
+            st = copy.copy(st)
+            st.body = _norm_stmts(st.body, helpers, depth)
+            st.orelse = _norm_stmts(st.orelse, helpers, depth)
+        out.append(st)
+    return out
+
+
+def _resolve_hook_aliases(stmts):
+    """`h = self.on_close` … `if h: h(self)`: a local name bound exactly once to self.on_open / self.on_close stands for the attribute"""
+    assigns, stores = {}, {}
+    for top in stmts:
+        for n in ast.walk(top):
+            if isinstance(n, ast.Name) and isinstance(n.ctx, ast.Store):
+                stores[n.id] = stores.get(n.id, 0) + 1
+            if isinstance(n, ast.Assign) and len(n.targets) == 1 and isinstance(n.targets[0], ast.Name) \
+                    and _dotted(n.value) in ("self.on_open", "self.on_close"):
+                assigns.setdefault(n.targets[0].id, []).append(n)
+    mapping = {k: v[0].value for k, v in assigns.items() if len(v) == 1 and stores.get(k) == 1}
+    if not mapping:
+        return stmts
+    ren = _Rename(mapping, drop=[assigns[k][0] for k in mapping])
+    out = []
+    for top in stmts:
+        r = ren.visit(top) if not any(top is assigns[k][0] for k in mapping) else None
+        if r is not None:
+            out.append(ast.fix_missing_locations(r))
+    return out
+
+
+def _is_return_self(st):
+    return isinstance(st, ast.Return) and _dotted(st.value) == "self"
+
+
+def _normalised_body(rel, cls, name):
+    """the method's statements after the behaviour-preserving rewrites: helper inlining, hook aliases, re-association of nested
+    try/finally, and `return self` taken out of the last try statement (`try: …; return self  except …: …; raise` and
+    `try: … except …: …; raise  else: return self` both are `try: … except …: …; raise` followed by `return self`)"""
+    body = _body_wo_doc(_find_method(rel, cls, name))
+    body = _resolve_hook_aliases([copy.deepcopy(b) for b in body])
+    body = _norm_stmts(body, _module_helpers(rel))
+    if body and isinstance(body[-1], ast.Try) and body[-1].handlers and not body[-1].finalbody:
+        t = body[-1]
+        all_raise = all(h.body and isinstance(h.body[-1], ast.Raise) for h in t.handlers)
+        if all_raise and len(t.orelse) == 1 and _is_return_self(t.orelse[0]):
+            t = copy.copy(t); ret = t.orelse[0]; t.orelse = []
+            body = body[:-1] + [t, ret]
+        elif all_raise and not t.orelse and len(t.body) > 1 and _is_return_self(t.body[-1]):
+            t = copy.copy(t); ret = t.body[-1]; t.body = t.body[:-1]
+            body = body[:-1] + [t, ret]
+    return body
+
+
 EXC_SEL = {"ScrapliTimeout": ".timeout", "ScrapliConnectionError": ".connError", "ScrapliAuthenticationFailed": ".authFailed",
            "ScrapliException": ".scrapli", "Exception": ".exception", "BaseException": ".baseException"}
 
@@ -194,7 +313,7 @@ def exit_branches(rel, cls, name):
 
 def prog_of(rel, cls, name, skip=0):
     where = f"{rel}:{cls}.{name}"
-    body = _body_wo_doc(_find_method(rel, cls, name))[skip:]
+    body = _normalised_body(rel, cls, name)[skip:]
     nodes = []
     for i, st in enumerate(body):
         if isinstance(st, ast.Return):
@@ -426,7 +545,25 @@ def transport_close_handles(kind):
     return tested, cleared
 
 
+# the model's own programs (Lifecycle.lean: openSync/openAsync, closeFixed2, enterP2, exitP), emitted when the source's
+# open/close/__enter__/__exit__ cannot be read into the statement language; `source_is_model` then compares model with model and the
+# tie is the exhaustive behavioural equivalence tools/props/c11.py runs instead (FALLBACK tells it to)
+_OPEN = ("[.simple ⟨.always, (.logPre false)⟩,\n    .simple ⟨.always, .transportOpen⟩,\n    .simple ⟨.always, .channelOpen⟩,\n{auth}"
+         "    .simple ⟨.telnetNoBypass, .authTelnet⟩,\n    .simple ⟨.hasOnOpen, .onOpen⟩,\n    .simple ⟨.always, (.logPost false)⟩]")
+_CLOSE = ("[.simple ⟨.always, ({head} true)⟩,\n    .tryFinallyN [⟨.hasOnClose, .onClose⟩] [⟨.always, .transportClose⟩] [⟨.always, .channelClose⟩],\n"
+          "    .simple ⟨.always, (.logPost true)⟩]")
+_ENTER = "[.tryExceptRaiseN [⟨.always, .callOpen⟩] [⟨.always, .logCritical⟩] [⟨.always, .transportClose⟩] [⟨.always, .channelClose⟩]]"
+_EXIT = "[.simple ⟨.always, .callClose⟩]"
+MODEL_PROGRAMS = {
+    "sync": {"Open": _OPEN.format(auth="    .simple ⟨.systemNoBypass, .authSystem⟩,\n"), "Close": _CLOSE.format(head=".logPre"), "Enter": _ENTER, "Exit": _EXIT},
+    "async": {"Open": _OPEN.format(auth=""), "Close": _CLOSE.format(head=".logPost"), "Enter": _ENTER, "Exit": _EXIT},
+}
+FALLBACK = None      # set by generate(): the TranslateError text when the programs below are the model's, not the source's
+
+
 def generate():
+    global FALLBACK
+    FALLBACK = None
     assert_no_overrides()
     assert_handle_timeout_shape()
     handles = {k: transport_close_handles(k) for k in CLOSE_TABLE}
@@ -435,9 +572,16 @@ def generate():
     body += "import ScrapliModel.LifecycleSyntax\nnamespace Scrapli.Gen.Lifecycle\nopen Scrapli.Lifecycle\n\n"
     for lean, rel, cls, names in (("sync", sync, "Driver", ("open", "close", "__enter__", "__exit__")),
                                   ("async", asyn, "AsyncDriver", ("open", "close", "__aenter__", "__aexit__"))):
-        branches, used = exit_branches(rel, cls, names[3])
+        try:
+            branches, used = exit_branches(rel, cls, names[3])
+            progs = {field: prog_of(rel, cls, name, skip=used if field == "Exit" else 0) for field, name in zip(("Open", "Close", "Enter", "Exit"), names)}
+        except TranslateError as e:
+            # unreadable shape: not an alarm by itself -- the other tie (behavioural equivalence with the model programs) takes over
+            FALLBACK = (FALLBACK + "; " if FALLBACK else "") + str(e)
+            branches, progs = [], MODEL_PROGRAMS[lean]
+            body += f"-- {rel}: UNREADABLE SHAPE ({e}); the four programs below are the MODEL's, tie = behavioural equivalence\n"
         for field, name in zip(("Open", "Close", "Enter", "Exit"), names):
-            body += f"/-- {rel}: {cls}.{name} -/\ndef {lean}{field} : Prog :=\n  {prog_of(rel, cls, name, skip=used if field == 'Exit' else 0)}\n\n"
+            body += f"/-- {rel}: {cls}.{name} -/\ndef {lean}{field} : Prog :=\n  {progs[field]}\n\n"
         body += (f"/-- {rel}: {cls}.{names[3]}: early-return branches on the class of the exception the with-body ended with -/\n"
                  f"def {lean}ExitOn : List (ExcSel × Prog) :=\n  [{', '.join(branches)}]\n\n")
         body += f"def {lean}Code : Code := ⟨{lean}Open, {lean}Close, {lean}Enter, {lean}Exit, {lean}ExitOn⟩\n\n"
